@@ -231,6 +231,115 @@ Proof.
 Qed.
 End Step.
 
+(* ---------- the whole of RunInjections (all rounds) ---------- *)
+Lemma length_set_nth {A} n (a : A) l : length (set_nth n a l) = length l.
+Proof. revert n. induction l as [|b l IH]; intros [|n]; simpl; auto. Qed.
+
+Lemma inject_one_inv is_x st tid cr st' : inject_one is_x st tid cr = Done st' ->
+  exists s1, pre_eliminate is_x (map fst (x_cols (extract_at cr (i_nv st) (i_nt st)))) (x_rs (extract_at cr (i_nv st) (i_nt st))) = Done s1.
+Proof.
+  unfold inject_one. destruct (pre_eliminate _ _ _) as [s1| |]; try discriminate. intros _. exists s1. reflexivity.
+Qed.
+
+(* every table number the run may replace is a position of the row choice *)
+Definition covers (rho : choice) (ts : list (nat * pred)) : Prop := forall t p, In (t, p) ts -> t < length rho.
+
+Lemma round_forward is_x D tau : forall snapshot st changed st' changed' rho,
+  inject_round is_x D snapshot st changed = Done (st', changed') -> covers rho snapshot ->
+  cells tau (i_cols st') rho -> solves tau (i_rs st') ->
+  exists rho0, length rho0 = length rho /\ cells tau (i_cols st) rho0 /\ solves tau (i_rs st) /\
+               output tau (i_rs st') = output tau (i_rs st).
+Proof.
+  induction snapshot as [|[tid p] rest IH]; intros st changed st' changed' rho H Hcov Hc Hs; simpl in H.
+  - inversion H. subst. exists rho. auto.
+  - assert (Hcov' : covers rho rest) by (intros t q Hin; apply (Hcov t q); right; exact Hin).
+    destruct (def_of D p) as [cr|]; [|eapply IH; eauto].
+    destruct (inject_one is_x st tid cr) as [st1| |] eqn:E1; try discriminate.
+    destruct (IH st1 true st' changed' rho H Hcov' Hc Hs) as [rho1 [L1 [C1 [S1 O1]]]].
+    destruct (inject_one_inv _ _ _ _ _ E1) as [s1 Hpre].
+    assert (Hlt : tid < length rho1) by (rewrite L1; apply (Hcov tid p); left; reflexivity).
+    destruct (inject_forward is_x st st1 tid cr s1 Hpre E1 tau rho1 Hlt C1 S1) as [_ [_ [C0 [S0 O0]]]].
+    exists (set_nth tid (output tau s1) rho1). split; [rewrite length_set_nth; exact L1|].
+    split; [exact C0|]. split; [exact S0|]. rewrite O1. exact O0.
+Qed.
+
+(* table numbers stay below the allocator mark, which only grows *)
+Definition tabs_below (st : ist) : Prop := forall t p, In (t, p) (i_tabs st) -> t < i_nt st.
+
+Lemma number_from_range ts : forall t0 t p, In (t, p) (number_from t0 ts) -> t0 <= t < t0 + length ts.
+Proof.
+  induction ts as [|q ts IH]; intros t0 t p H; simpl in *; [contradiction|].
+  destruct H as [H|H]; [inversion H; subst; lia | apply IH in H; lia].
+Qed.
+
+Lemma replace_tab_In tid new ts t p : In (t, p) (replace_tab tid new ts) -> In (t, p) new \/ In (t, p) ts.
+Proof.
+  induction ts as [|[t' p'] ts IH]; simpl; [tauto|]. destruct (Nat.eqb t' tid).
+  - intros H. apply in_app_or in H as [H|H]; [left; exact H | right; right; exact H].
+  - intros [H|H]; [right; left; exact H | destruct (IH H); [left | right; right]; assumption].
+Qed.
+
+Lemma inject_one_marks is_x st tid cr st' : inject_one is_x st tid cr = Done st' ->
+  i_nt st <= i_nt st' /\ (tabs_below st -> tabs_below st').
+Proof.
+  unfold inject_one. destruct (pre_eliminate _ _ _) as [s1| |]; try discriminate.
+  destruct (links _ _) as [ls|]; try discriminate. intros H. inversion H. subst st'. clear H. cbn [i_nt i_tabs].
+  split; [lia|]. intros Hb t p Hin. cbn [i_nt i_tabs] in *. apply replace_tab_In in Hin as [Hin|Hin].
+  - apply number_from_range in Hin. lia.
+  - apply Hb in Hin. lia.
+Qed.
+
+Lemma round_marks is_x D : forall snapshot st changed st' changed',
+  inject_round is_x D snapshot st changed = Done (st', changed') ->
+  i_nt st <= i_nt st' /\ (tabs_below st -> tabs_below st').
+Proof.
+  induction snapshot as [|[tid p] rest IH]; intros st changed st' changed' H; simpl in H.
+  - inversion H. subst. split; [lia | auto].
+  - destruct (def_of D p) as [cr|]; [|eapply IH; eauto].
+    destruct (inject_one is_x st tid cr) as [st1| |] eqn:E1; try discriminate.
+    destruct (inject_one_marks _ _ _ _ _ E1) as [M1 B1]. destruct (IH _ _ _ _ H) as [M2 B2]. split; [lia | auto].
+Qed.
+
+Lemma run_marks is_x D : forall fuel st st', run_injections is_x D fuel st = Done st' ->
+  i_nt st <= i_nt st' /\ (tabs_below st -> tabs_below st').
+Proof.
+  induction fuel as [|fuel IH]; intros st st' H; simpl in H; [discriminate|].
+  destruct (inject_round is_x D (i_tabs st) st false) as [[st1 ch]| |] eqn:Er; try discriminate.
+  destruct (round_marks _ _ _ _ _ _ _ Er) as [M1 B1]. destruct ch.
+  - destruct (IH _ _ H) as [M2 B2]. split; [lia | auto].
+  - inversion H. subst. split; [lia | auto].
+Qed.
+
+(* RUNINJECTIONS IS SOUND: a valuation that solves the structure RunInjections leaves, over a row choice rho
+   that has a position for every allocated table number, solves the caller's ORIGINAL structure over a row
+   choice of the same length (the replaced tables hold the rows their callees emit under the same valuation),
+   with the same head row. *)
+Theorem run_injections_sound is_x D tau : forall fuel st st' rho,
+  run_injections is_x D fuel st = Done st' ->
+  tabs_below st -> i_nt st' <= length rho ->
+  cells tau (i_cols st') rho -> solves tau (i_rs st') ->
+  exists rho0, length rho0 = length rho /\ cells tau (i_cols st) rho0 /\ solves tau (i_rs st) /\
+               output tau (i_rs st') = output tau (i_rs st).
+Proof.
+  induction fuel as [|fuel IH]; intros st st' rho H Hb Hlen Hc Hs; simpl in H; [discriminate|].
+  destruct (inject_round is_x D (i_tabs st) st false) as [[st1 ch]| |] eqn:Er; try discriminate.
+  destruct (round_marks _ _ _ _ _ _ _ Er) as [M1 B1].
+  destruct ch.
+  - destruct (run_marks _ _ _ _ _ H) as [M2 _].
+    destruct (IH st1 st' rho H (B1 Hb) Hlen Hc Hs) as [rho1 [L1 [C1 [S1 O1]]]].
+    assert (Hcov1 : covers rho1 (i_tabs st)) by (intros t p Hin; rewrite L1; apply Hb in Hin; lia).
+    destruct (round_forward is_x D tau _ _ _ _ _ rho1 Er Hcov1 C1 S1) as [rho0 [L0 [C0 [S0 O0]]]].
+    exists rho0. split; [congruence|]. split; [exact C0|]. split; [exact S0|]. congruence.
+  - inversion H. subst st'.
+    assert (Hcov : covers rho (i_tabs st)) by (intros t p Hin; apply Hb in Hin; lia).
+    eapply round_forward; eauto.
+Qed.
+
+Lemma ist_of_rule_below r : tabs_below (ist_of_rule r).
+Proof.
+  unfold tabs_below, ist_of_rule. cbn [i_tabs i_nt]. intros t p Hin. apply number_from_range in Hin. lia.
+Qed.
+
 (* ---------- down to the emitted query: elimination after injection ---------- *)
 (* the FROM/WHERE/SELECT reading of the eliminated structure emits only rows the structure denotes *)
 Lemma sql_row_sound is_x s cm final rho out :
